@@ -7,7 +7,10 @@ CONSTANTS
   MaxOps = 3
   MaxTx = 2
   OwnerFix = TRUE
+  AttachGuard = TRUE
+  SaveGuard = TRUE
   ObjSeq <- Seq3a
+  Bias = FALSE
   Quiet = TRUE
 INIT Init
 NEXT Next
